@@ -110,3 +110,17 @@ Fixpoint c07_idle_walk (inbox_dirty : bool) (tr : list fstep) : bool :=
   end.
 
 Definition c07_idle_silent_partial (cfg : vconfig) (tr : list fstep) : bool := c07_idle_walk false tr.
+
+(* the window an ACK sent now would advertise, from the fingerprint (VirtualSocket::rx_window) *)
+Definition fp_rx_window (f : vfp) : Z :=
+  let rem := if f_rx_reader_dropped f then 0 else sat_sub (f_rx_last_remaining f) (f_rx_len_bytes f) in
+  let wnd := rem mod M32 in
+  if wnd <? f_mss f then 0 else wnd - (wnd mod f_mss f).
+
+(* window re-opens from zero (or closes to zero): a poll that ran to its end leaves the window last
+   advertised and the window it would advertise now on the same side of zero - the update was sent in
+   this very poll, without any clock advance - until the peer's FIN has been seen *)
+Definition c07_window_update_ok (cfg : vconfig) (st : fstep) : bool :=
+  if c07_poll_done st && negb (is_remote_fin_or_later (f_state (fs_post st))) then
+    Bool.eqb (fp_rx_window (fs_post st) =? 0) (f_last_sent_window (fs_post st) =? 0)
+  else true.
